@@ -1081,7 +1081,34 @@ func (e *Exec) execInstr(s *State, f *Frame, instr ssa.Instruction) {
 		e.note("channel send ignored: " + f.fn.String())
 	case *ssa.DebugRef:
 	case *ssa.SliceToArrayPointer:
-		panic(unsupported("slice to array pointer"))
+		// (*[N]T)(slice), in practice immediately dereferenced (the conversion [N]T(slice) copies). Modelled as a
+		// pointer to a fresh array holding a copy of the first N elements: exact for the copy idiom; writes through
+		// the pointer would not reach the slice (noted as an assumption).
+		sv, ok := e.get(f, in.X).(*SliceV)
+		at, ok2 := in.Type().(*types.Pointer).Elem().Underlying().(*types.Array)
+		es := (*Sort)(nil)
+		if ok2 {
+			es = elemSort(at.Elem())
+		}
+		if !ok || !ok2 || es == nil || at.Len() > 64 {
+			panic(unsupported("slice to array pointer"))
+		}
+		n := at.Len()
+		e.check(s, "bounds", e.c.ULe(BVConst(uint64(n), 64), sv.Len), in.Pos(), in)
+		arr := e.c.ZeroOf(SArr(es))
+		if sv.Base != nil {
+			if src, ok := e.load(s, sv.Base).(*Term); ok {
+				for i := int64(0); i < n; i++ {
+					arr = e.c.Store(arr, BVConst(uint64(i), 64), e.c.Select(src, e.c.Add(sv.Off, BVConst(uint64(i), 64))))
+				}
+			} else {
+				panic(unsupported("slice to array pointer over a non-scalar backing"))
+			}
+		}
+		e.note("slice-to-array conversion modelled as a copy (the array pointer is assumed to be dereferenced at once)")
+		o := e.newObj(fmt.Sprintf("%s#%d:%s.arrcopy", f.fn.Name(), f.id, in.Name()), at, false, s.step)
+		s.heap.m[o] = arr
+		f.env[in] = &PtrV{Ref: &Ref{Obj: o}, Nil: False}
 	case *ssa.Jump:
 		e.gotoBlock(s, f, f.block.Succs[0], in.Pos())
 	case *ssa.If:
